@@ -541,6 +541,21 @@ pub fn gen_case(s: &mut Src<'_>) -> Case {
             kind = "undecodable";
             truthful = None;
         }
+        // the builders never look at coin.puzzle_hash (validation does): a bundle
+        // whose coin CLAIMS the puzzle hash of a spend of an earlier bundle while
+        // revealing its own, different puzzle must be emitted with its own reveal
+        if kind != "undecodable" && idx > 0 && s.chance(12) {
+            let j = s.below(idx);
+            let donor = &pool[j].sb.coin_spends;
+            let x = s.below(donor.len());
+            let k = s.below(spends.len());
+            let claimed: [u8; 32] = donor[x].coin.puzzle_hash.as_slice().try_into().expect("32 bytes");
+            if claimed != spends[k].puzzle_hash && donor[x].puzzle_reveal.as_slice() != spends[k].puzzle.as_slice() {
+                spends[k].puzzle_hash = claimed;
+                kind = "claims-foreign-puzzle-hash";
+                truthful = None;
+            }
+        }
         let pb = finish_bundle(s, idx, spends, truthful, kind);
         if pb.truthful.is_some() {
             for id in &pb.coin_ids {
@@ -1225,6 +1240,8 @@ const REQUIRED: &[&str] = &[
     "consensus-cost:compared",
     "block:empty",
     "pool:sparse",
+    "pool:family",
+    "bundle:claims-foreign-puzzle-hash",
     "fresh-builder:generator-bytes-equal",
     "fresh-builder:same-spends-and-signature",
 ];
